@@ -1953,3 +1953,228 @@ Lemma stale_retval_refuted :
     [ {| d_time := 1000; d_type := UFTRACE_EXIT; d_depth := 1; d_addr := 0x401000; d_args := Some (le_bytes 8 3) |} ] /\
   show_ret [] chk_specs (Some (le_bytes 8 3)) = [32; 61; 32; 51; 59].
 Proof. vm_compute. repeat split; reflexivity. Qed.
+
+(* ------------------------------------------------------------------ -T specs and -A / -R specs on one function *)
+(* The writer applies the -T actions (each may mix argument and return value specs), then -A, then -R; the readers
+   apply the argument specs of the -T actions, -A, then the return value specs of the -T actions, -R.  The payload of
+   one direction is laid out by the specs of that direction in list order: that sub-list is the same on both sides,
+   for every way of splitting the specs of a function between -T and -A / -R. *)
+Definition xl := list (spec * bool).
+Definition add_opt (l : xl) (o : bool * list spec) : xl := fold_left (fun l' a => add_arg_spec_x l' a (fst o)) (snd o) l.
+Definition fold_opts (o : opts) (l : xl) : xl := fold_left add_opt o l.
+Lemma merge_opts_fold : forall o, merge_opts o = map fst (fold_opts o []).
+Proof. reflexivity. Qed.
+Definition filterd (d : bool) (l : xl) : xl := filter (fun p => dirb d (fst p)) l.
+Definition pool (o : opts) : list spec := flat_map snd o.
+(* no argument spec and return value spec of the function name the same register / stack slot (add_arg_spec looks
+   for an earlier spec of the same class and register / offset whatever its direction) *)
+Definition separated (P : list spec) : Prop :=
+  forall a b, In a P -> In b P -> same_key a b = true -> is_ret a = is_ret b.
+Definition inv (P : list spec) (l : xl) : Prop :=
+  forall o ex, In (o, ex) l ->
+  exists p, In p P /\ is_ret p = is_ret o /\ (forall z, same_key z o = same_key z p).
+Definition repl (o a : spec) : spec :=
+  {| s_idx := s_idx o; s_fmt := s_fmt a; s_size := s_size a; s_type := s_type a; s_u := s_u a;
+     s_regs := s_regs a; s_name := s_name a |}.
+
+Lemma same_key_repl : forall a o z, same_key a o = true -> same_key z (repl o a) = same_key z o.
+Proof.
+  intros a o z K. unfold same_key, repl in *. cbn.
+  destruct (s_type a), (s_type o), (s_type z); try discriminate; try reflexivity;
+    apply Z.eqb_eq in K; rewrite K; reflexivity.
+Qed.
+
+Lemma add_x_unfold : forall o oex r a ex,
+  add_arg_spec_x ((o, oex) :: r) a ex =
+  if same_key a o then (if ex || negb oex then (repl o a, ex) else (o, oex)) :: r
+  else (o, oex) :: add_arg_spec_x r a ex.
+Proof. reflexivity. Qed.
+
+Lemma add_x_inv : forall P a ex l, In a P -> inv P l -> inv P (add_arg_spec_x l a ex).
+Proof.
+  intros P a ex l Ha. induction l as [|[o oex] r IH]; intro Hinv.
+  - intros o' ex' [E|[]]. inversion E; subst. exists o'. repeat split; auto.
+  - assert (Hr : inv P r) by (intros o' ex' Hin; apply (Hinv o' ex'); right; exact Hin).
+    rewrite add_x_unfold. destruct (same_key a o) eqn:K.
+    + intros o' ex' [E|Hin]; [|apply (Hinv o' ex'); right; exact Hin].
+      destruct (Hinv o oex (or_introl eq_refl)) as (p & Hp & Hd & Hk).
+      destruct (ex || negb oex); inversion E; subst.
+      * exists p. repeat split; auto. intro z. rewrite (same_key_repl a o z K). apply Hk.
+      * exists p. repeat split; auto.
+    + intros o' ex' [E|Hin].
+      * apply (Hinv o' ex'). left. exact E.
+      * apply (IH Hr o' ex' Hin).
+Qed.
+
+Lemma add_x_filter : forall P d a ex l, separated P -> In a P -> inv P l ->
+  filterd d (add_arg_spec_x l a ex) = if dirb d a then add_arg_spec_x (filterd d l) a ex else filterd d l.
+Proof.
+  intros P d a ex l Hsep Ha. induction l as [|[o oex] r IH]; intro Hinv.
+  - cbn. destruct (dirb d a); reflexivity.
+  - assert (Hr : inv P r) by (intros o' ex' Hin; apply (Hinv o' ex'); right; exact Hin).
+    specialize (IH Hr). rewrite add_x_unfold. destruct (same_key a o) eqn:K.
+    + destruct (Hinv o oex (or_introl eq_refl)) as (p & Hp & Hd & Hk).
+      assert (Hdir : is_ret a = is_ret o).
+      { rewrite <- Hd. apply Hsep; try assumption. rewrite <- Hk. exact K. }
+      assert (Hda : dirb d a = dirb d o) by (unfold dirb; rewrite Hdir; reflexivity).
+      set (hd := if ex || negb oex then (repl o a, ex) else (o, oex)).
+      assert (Hhd : dirb d (fst hd) = dirb d o) by (unfold hd; destruct (ex || negb oex); reflexivity).
+      unfold filterd. cbn [filter]. fold (filterd d r). rewrite Hhd. cbn [fst]. rewrite Hda.
+      destruct (dirb d o); [|reflexivity].
+      rewrite add_x_unfold, K. reflexivity.
+    + unfold filterd. cbn [filter fst]. fold (filterd d r). fold (filterd d (add_arg_spec_x r a ex)). rewrite IH.
+      destruct (dirb d o), (dirb d a); try reflexivity.
+      rewrite add_x_unfold, K. reflexivity.
+Qed.
+
+Lemma add_opt_filter : forall P d ex specs l, separated P -> incl specs P -> inv P l ->
+  filterd d (add_opt l (ex, specs)) = add_opt (filterd d l) (ex, filter (dirb d) specs) /\ inv P (add_opt l (ex, specs)).
+Proof.
+  intros P d ex specs. unfold add_opt. cbn [fst snd].
+  induction specs as [|a r IH]; intros l Hsep Hin Hinv.
+  - split; [reflexivity|exact Hinv].
+  - assert (Ha : In a P) by (apply Hin; left; reflexivity).
+    assert (Hr : incl r P) by (intros z Hz; apply Hin; right; exact Hz).
+    cbn [fold_left filter].
+    destruct (IH (add_arg_spec_x l a ex) Hsep Hr (add_x_inv P a ex l Ha Hinv)) as (E & I).
+    split; [|exact I]. rewrite E, (add_x_filter P d a ex l Hsep Ha Hinv).
+    destruct (dirb d a); reflexivity.
+Qed.
+
+Lemma fold_opts_filter : forall P d o l, separated P -> incl (pool o) P -> inv P l ->
+  filterd d (fold_opts o l) = fold_opts (restrict d o) (filterd d l).
+Proof.
+  intros P d o. unfold fold_opts. induction o as [|[ex specs] r IH]; intros l Hsep Hin Hinv.
+  - reflexivity.
+  - assert (Hs : incl specs P) by (intros z Hz; apply Hin; unfold pool; cbn; apply in_or_app; left; exact Hz).
+    assert (Hr : incl (pool r) P) by (intros z Hz; apply Hin; unfold pool; cbn; apply in_or_app; right; exact Hz).
+    destruct (add_opt_filter P d ex specs l Hsep Hs Hinv) as (E & I).
+    cbn [fold_left restrict map fst snd]. rewrite (IH _ Hsep Hr I), E. reflexivity.
+Qed.
+
+Lemma filter_map_fst : forall d (l : xl), filter (dirb d) (map fst l) = map fst (filterd d l).
+Proof.
+  intros d l. induction l as [|[o ex] r IH]; [reflexivity|].
+  unfold filterd. cbn [map filter fst]. fold (filterd d r). destruct (dirb d o); cbn [map fst]; rewrite IH; reflexivity.
+Qed.
+
+Lemma dir_specs_fold : forall d o, separated (pool o) ->
+  dir_specs d o = map fst (fold_opts (restrict d o) []).
+Proof.
+  intros d o Hsep. unfold dir_specs. rewrite merge_opts_fold, filter_map_fst.
+  rewrite (fold_opts_filter (pool o) d o [] Hsep (incl_refl _)); [reflexivity|].
+  intros z ex [].
+Qed.
+
+Definition all_empty (o : opts) : Prop := Forall (fun x => snd x = []) o.
+Lemma fold_opts_empty : forall o l, all_empty o -> fold_opts o l = l.
+Proof.
+  intros o l H. revert l. induction H as [|[ex specs] r E _ IH]; intro l; [reflexivity|].
+  cbn in E. subst specs. unfold fold_opts. cbn [fold_left]. unfold add_opt at 2. cbn. apply IH.
+Qed.
+Lemma fold_opts_app : forall a b l, fold_opts (a ++ b) l = fold_opts b (fold_opts a l).
+Proof. intros. apply fold_left_app. Qed.
+Lemma restrict_app : forall d a b, restrict d (a ++ b) = restrict d a ++ restrict d b.
+Proof. intros. apply map_app. Qed.
+Lemma filter_idem : forall {A} (f : A -> bool) l, filter f (filter f l) = filter f l.
+Proof.
+  intros A f l. induction l as [|x r IH]; [reflexivity|]. cbn. destruct (f x) eqn:E; cbn; [rewrite E, IH|]; auto.
+Qed.
+Lemma restrict_idem : forall d o, restrict d (restrict d o) = restrict d o.
+Proof.
+  intros d o. unfold restrict. rewrite map_map. apply map_ext. intros [ex specs]. cbn. rewrite filter_idem. reflexivity.
+Qed.
+Lemma filter_none : forall {A} (f : A -> bool) l, Forall (fun x => f x = false) l -> filter f l = [].
+Proof. intros A f l H. induction H as [|x r E _ IH]; [reflexivity|]. cbn. rewrite E. exact IH. Qed.
+Lemma restrict_other_empty : forall d o,
+  Forall (fun x => Forall (fun s => is_ret s = negb d) (snd x)) o -> all_empty (restrict d o).
+Proof.
+  intros d o H. unfold all_empty, restrict. rewrite Forall_map.
+  eapply Forall_impl; [|exact H]. intros [ex specs] Hs. cbn in *. apply filter_none.
+  eapply Forall_impl; [|exact Hs]. intros s E. unfold dirb. rewrite E. destruct d; reflexivity.
+Qed.
+Lemma restrict_opposite_empty : forall d o, all_empty (restrict d (restrict (negb d) o)).
+Proof.
+  intros d o. apply restrict_other_empty. unfold restrict. rewrite Forall_map.
+  apply Forall_forall. intros [ex specs] _. cbn. apply Forall_forall. intros s Hs.
+  apply filter_In in Hs. destruct Hs as (_ & Hs). unfold dirb in Hs. apply Bool.eqb_prop in Hs. exact Hs.
+Qed.
+
+Lemma pool_app : forall a b, pool (a ++ b) = pool a ++ pool b.
+Proof. intros. apply flat_map_app. Qed.
+Lemma pool_restrict_incl : forall d o, incl (pool (restrict d o)) (pool o).
+Proof.
+  intros d o z Hz. unfold pool, restrict in *. apply in_flat_map in Hz. destruct Hz as (x & Hx & Hz).
+  apply in_map_iff in Hx. destruct Hx as ([ex specs] & E & Hin). subst x. cbn in Hz.
+  apply filter_In in Hz. apply in_flat_map. exists (ex, specs). split; [exact Hin|apply Hz].
+Qed.
+
+Theorem trigger_split_order : forall x d,
+  separated (pool (writer_opts x)) ->
+  Forall (fun o => Forall (fun s => is_ret s = false) (snd o)) (x_a x) ->
+  Forall (fun o => Forall (fun s => is_ret s = true) (snd o)) (x_r x) ->
+  dir_specs d (reader_opts x) = dir_specs d (writer_opts x).
+Proof.
+  intros x d Hsep Ha Hr.
+  assert (Hsep' : separated (pool (reader_opts x))).
+  { intros a b Hina Hinb. apply Hsep.
+    - unfold reader_opts, writer_opts in *. rewrite !pool_app in *.
+      repeat (apply in_app_or in Hina; destruct Hina as [Hina|Hina]);
+        try (apply pool_restrict_incl in Hina); repeat (apply in_or_app; (left; assumption) || right); try assumption.
+    - unfold reader_opts, writer_opts in *. rewrite !pool_app in *.
+      repeat (apply in_app_or in Hinb; destruct Hinb as [Hinb|Hinb]);
+        try (apply pool_restrict_incl in Hinb); repeat (apply in_or_app; (left; assumption) || right); try assumption. }
+  rewrite (dir_specs_fold d _ Hsep), (dir_specs_fold d _ Hsep'). f_equal.
+  unfold reader_opts, writer_opts. rewrite !restrict_app, !fold_opts_app.
+  destruct d.
+  - rewrite (fold_opts_empty (restrict true (restrict false (x_t x)))) by apply (restrict_opposite_empty true).
+    rewrite !(fold_opts_empty (restrict true (x_a x))) by (apply restrict_other_empty; exact Ha).
+    rewrite restrict_idem. reflexivity.
+  - rewrite (fold_opts_empty (restrict false (restrict true (x_t x)))) by apply (restrict_opposite_empty false).
+    rewrite !(fold_opts_empty (restrict false (x_r x))) by (apply restrict_other_empty; exact Hr).
+    rewrite restrict_idem. reflexivity.
+Qed.
+
+(* `-T 'lookup@arg1/i32' -A 'lookup@arg2/s,arg3/i64'`, lookup(7, "seven", -3).  Writer and readers: arg1, arg2, arg3.
+   Readers whose info lines carry the options first (seed C09-8) lay the payload out as arg2, arg3, arg1: they
+   cannot frame it. *)
+Definition lookup_x : xopts :=
+  {| x_t := [(true, [Sp 1 FSint 4 TIndex 0])]; x_a := [(true, [Sp 2 FStr 8 TIndex 0; Sp 3 FSint 8 TIndex 0])]; x_r := [] |}.
+Definition lookup_inp : inputs :=
+  {| regs := [7; 4096; 0xfffffffffffffffd; 0; 0; 0]; xmm := []; stk := []; rets := [0; 0];
+     strs := [(4096, [115; 101; 118; 101; 110])]; wrds := [] |}.
+Definition lookup_payload : list N :=
+  [7; 0; 0; 0; 5; 0; 115; 101; 118; 101; 110; 0; 253; 255; 255; 255; 255; 255; 255; 255].
+Lemma options_first_reader_refuted :
+  let w := merge_opts (writer_opts lookup_x) in
+  w = [Sp 1 FSint 4 TIndex 0; Sp 2 FStr 8 TIndex 0; Sp 3 FSint 8 TIndex 0] /\
+  merge_opts (reader_opts lookup_x) = w /\
+  merge_opts (reader_opts_options_first lookup_x) = [Sp 2 FStr 8 TIndex 0; Sp 3 FSint 8 TIndex 0; Sp 1 FSint 4 TIndex 0] /\
+  payload (run 0 lookup_inp false w) = Some lookup_payload /\
+  read_args false w (fit 24 0 lookup_payload ++ next_rec) = Some (lookup_payload, next_rec) /\
+  show_args [] w (Some lookup_payload) = [40; 55; 44; 32; 34; 115; 101; 118; 101; 110; 34; 44; 32; 45; 51; 41] /\
+  read_args false (merge_opts (reader_opts_options_first lookup_x)) (fit 24 0 lookup_payload ++ next_rec) <>
+    Some (lookup_payload, next_rec).
+Proof. vm_compute. repeat split; try reflexivity. discriminate. Qed.
+
+(* `-T 'name@retval/s'`, name() returns "seven".  extract_trigger_args as found wrote `name@retval` into the info
+   file: the readers took the 8 payload bytes (length, characters) for a number *)
+Definition name_x : xopts := {| x_t := [(true, [Sp 0 FStr 8 TIndex 0])]; x_a := []; x_r := [] |}.
+Definition name_inp (s : list N) : inputs :=
+  {| regs := []; xmm := []; stk := []; rets := [4096; 0]; strs := [(4096, s)]; wrds := [] |}.
+Definition seven_payload : list N := [5; 0; 115; 101; 118; 101; 110; 0].
+Definition a20_payload : list N := [20; 0] ++ repeat 65 20 ++ [0; 0].
+Lemma trigger_retval_format_legacy_refuted :
+  let w := merge_opts (writer_opts name_x) in
+  w = [Sp 0 FStr 8 TIndex 0] /\ merge_opts (reader_opts name_x) = w /\
+  merge_opts (reader_opts_legacy name_x) = [Sp 0 FAuto 8 TIndex 0] /\
+  payload (run 0 (name_inp [115; 101; 118; 101; 110]) true w) = Some seven_payload /\
+  show_ret [] w (Some seven_payload) = [32; 61; 32; 34; 115; 101; 118; 101; 110; 34; 59] /\
+  (* " = 0x6e657665730005;" *)
+  show_ret [] (merge_opts (reader_opts_legacy name_x)) (Some seven_payload) =
+    [32; 61; 32; 48; 120; 54; 101; 54; 53; 55; 54; 54; 53; 55; 51; 48; 48; 48; 53; 59] /\
+  (* a longer string: the record behind the payload is lost *)
+  payload (run 0 (name_inp (repeat 65 20)) true w) = Some a20_payload /\
+  read_args true w (a20_payload ++ next_rec) = Some (a20_payload, next_rec) /\
+  read_args true (merge_opts (reader_opts_legacy name_x)) (a20_payload ++ next_rec) <> Some (a20_payload, next_rec).
+Proof. vm_compute. repeat split; try reflexivity. discriminate. Qed.
